@@ -258,10 +258,24 @@ def providedby_c(u):
 
 
 def py_handlers(func):
+    """exception classes a function converts into a fallback: the types of
+    its handlers, plus AttributeError for every three-argument getattr (which
+    swallows exactly that)"""
     out = []
     for n in ast.walk(func):
         if isinstance(n, ast.ExceptHandler):
-            out.append(norm_src(n.type) if n.type is not None else 'BARE')
+            if n.type is None:
+                out.append('BARE')
+            elif isinstance(n.type, ast.Tuple):
+                out += [norm_src(e) for e in n.type.elts]
+            else:
+                out.append(norm_src(n.type))
+        elif isinstance(n, ast.Call) and isinstance(n.func, ast.Name) and \
+                n.func.id == 'getattr' and len(n.args) == 3:
+            out.append('AttributeError')
+        elif isinstance(n, ast.Call) and isinstance(n.func, ast.Name) and \
+                n.func.id == 'hasattr':
+            out.append('AttributeError')
     return out
 
 
